@@ -13,7 +13,8 @@ THEOREMS = ["links_symmetric", "links_point_to_existing", "link_buckets_sorted",
             "schema_collection_is_two_store_model", "schema_collection_refines_spec", "schema_self_collection_is_self_model", "schema_coherent",
             "schema_links_symmetric", "schema_self_links_symmetric", "schema_links_point_to_existing",
             "schema_rc_agree", "schema_setlinks_exact", "schema_setlinks_missing", "schema_delete_unlinks",
-            "schema_delete_unlinks_rc", "schema_delete_succeeds_iff", "schema_delete_failure_changes_nothing"]
+            "schema_delete_unlinks_rc", "schema_delete_succeeds_iff", "schema_delete_failure_changes_nothing",
+            "schema_naming_irrelevant"]
 
 LIST_FIELDS = {"cl": [3], "u": [3], "al": [3], "rl": [3], "sl": [3]}
 G_LIST_FIELDS = {"cl": [4], "u": [4], "al": [4], "rl": [4], "sl": [4]}
@@ -64,7 +65,11 @@ def histogram(case, impl, h):
     f = case.split(" ")
     h["kind:" + f[0]] = h.get("kind:" + f[0], 0) + 1
     if f[0] == "G":
-        colls = [] if f[1] == "-" else f[1].split(",")
+        colls = [] if f[1].split("@")[0] in ("-", "") else f[1].split("@")[0].split(",")
+        if "@" in f[1]:
+            h["schema:extended-child-store"] = h.get("schema:extended-child-store", 0) + 1
+        if any("." in c and c.split(".", 1)[1].strip("0") for c in colls):
+            h["schema:symbol-key-or-path-differs-from-name"] = h.get("schema:symbol-key-or-path-differs-from-name", 0) + 1
         h[f"schema-collections:{min(len(colls), 5)}"] = h.get(f"schema-collections:{min(len(colls), 5)}", 0) + 1
         kinds = {c[0] for c in colls}
         tags = []
@@ -166,6 +171,10 @@ RULE = ("each case is a history of Db.Update transactions over two real stores w
         "through each of the 4 stores, after every collection got links / counts (incl. a self link), then re-creation; "
         "random histories (Create / Create-with-SetLinkedIds / Update / DeleteById through root or child stores, all "
         "collection operations on any declared collection) per small schema (1 quick / 12 thorough each) plus random "
+        "schemas; NAMING of the set symbols is part of the schema: each collection end is declared with AddFkSetSymbol(name), "
+        "AddFkSymbolWithKey(name, otherKey), under a path prefix (refs/name) or both (refs/deep/otherKey) - every "
+        "single-collection schema in all 16 (self: 4) namings through the delete stream, a random naming for half of the "
+        "collections elsewhere; the dump prints the real bucket paths; random "
         "schemas of 1-5 collections (700 / 4000); compared per transaction: presence in all four stores, the read API "
         "of both ends of every collection, the schema-aware dump. After every "
         "transaction GetLinks/IterateLinks/IsLinked/GetLinkCount(s)/rc IterateLinks (both directions) for every pool "
@@ -197,6 +206,19 @@ def g_candidates(case):
         i = _g_coll_field(o)
         if i is not None:
             used.add(int(o.split(":")[i]))
+    flags = ""
+    if "@" in f[1]:
+        flags = "@" + f[1].split("@", 1)[1]
+        colls = [] if f[1].split("@", 1)[0] in ("-", "") else f[1].split("@", 1)[0].split(",")
+    for j in range(len(colls)):
+        # a simpler naming of collection j: plain set symbols, or one end plain
+        if "." in colls[j]:
+            base, v = colls[j].split(".", 1)
+            alts = [base] + ([base + "." + v[0] + "0", base + ".0" + v[1]] if len(v) == 2 and "0" not in v else [])
+            for alt in alts:
+                out.append(" ".join([f[0], ",".join(colls[:j] + [alt] + colls[j + 1:]) + flags, f[2], f[3]] + f[4:]))
+    if flags:
+        out.append(" ".join([f[0], (",".join(colls) if colls else "-"), f[2], f[3]] + f[4:]))
     for j in range(len(colls)):
         if j in used:
             continue
@@ -211,7 +233,7 @@ def g_candidates(case):
                 x[i] = str(int(x[i]) - 1)
             return ":".join(x)
         txs = [";".join(renum(o) for o in tx.split(";")) for tx in f[4:]]
-        out.append(" ".join([f[0], ",".join(rest) if rest else "-", f[2], f[3]] + txs))
+        out.append(" ".join([f[0], (",".join(rest) if rest else "-") + flags, f[2], f[3]] + txs))
     return out
 
 
